@@ -1,5 +1,6 @@
 // vh: correspondence harness. One sub-run per property:
-//   vh -prop C13 -seed 1 -tier quick -oracle <path> -out <result.json> [-replay case.json]
+//
+//	vh -prop C13 -seed 1 -tier quick -oracle <path> -out <result.json> [-replay case.json]
 package main
 
 import (
